@@ -390,6 +390,13 @@ impl Seq {
             }
             if let Some(s) = self.m.subs.get(sub) {
                 if !s.fresh.is_empty() || !s.requeued.is_empty() {
+                    if s.requeued.values().any(|c| *c == "expiry-after-modify") {
+                        rep.viol(
+                            "C05",
+                            "C05:late-after-modify:stream-never-redelivered",
+                            format!("open stream on {} is idle although the modified deadline of one of its deliveries has passed (deadline + slack)", short(sub)),
+                        );
+                    }
                     rep.viol(
                         "C06",
                         "C06:Q-wake:stream-left-messages",
